@@ -459,6 +459,11 @@ class SeqRun(seq_hooks.HooksMixin, object):
             self.viol('C15', 'accepted-what-the-rule-refuses', 'op=%s' % desc.split(' ')[0],
                       '%s was accepted, but the documented rule refuses it: %s' % (desc, r))
             raise Poisoned()
+        # whatever the operation deleted (directly or by cascade) released its key values: taking one of them
+        # again before the next flush makes the statement order matter (R2)
+        for mid, o in self.view.objs.items():
+            if not o.deleted and mid in v2.objs and v2.objs[mid].deleted:
+                self._note_keys_released(self.schema.by_name[o.ent], o.vals)
         self.view = v2
         if must_fail and self.knobs.get('legacy_keys'):
             # tables without UNIQUE constraints (a legacy schema mapped with create_tables=False): the identity
